@@ -6,6 +6,6 @@ CONSTANTS
   NoPrologue = {}
   Emit = FALSE
   Retries = 2
-  RetrySwitchesPeer = FALSE
+  RetrySwitchesPeer = TRUE
 INVARIANTS TypeOK Safety
 CHECK_DEADLOCK FALSE
